@@ -263,11 +263,13 @@ varintAdaptiveSelectEncoding(const varintAdaptiveDataStats *stats) {
 
     /* 2. Dense sets in bitmap range → Bitmap encoding
      * IMPORTANT: Bitmap is for SETS (unique values only), not sequences
-     * Only use if all values are unique or nearly unique
-     * AND data is already sorted (since BITMAP returns values in sorted order)
+     * Only use if all values are unique AND the data is already sorted
+     * ascending: BITMAP returns a duplicate-free ascending sequence, so a
+     * descending input or one with a duplicate would not decode to itself
+     * (count < 10000 below, so uniqueCount is exact, not sampled)
      */
-    if (stats->fitsInBitmapRange && stats->uniqueRatio > 0.9f &&
-        (stats->isSorted || stats->isReverseSorted)) {
+    if (stats->fitsInBitmapRange && stats->uniqueCount == stats->count &&
+        stats->isSorted) {
         /* All or nearly all values are unique - bitmap might work */
         if (stats->range > 0 && stats->count < 10000) {
             float density = (float)stats->count / (float)stats->range;
